@@ -22,6 +22,11 @@
 //	vote <id>                              tree part of handleReceivedVoteMsg at quorum: AdvanceView(id's view); updateHighQC(id)
 //	pm <view>                              DefaultPaceMaker.AdvanceView(qc of that view) -> view <current>
 //	dump                                                                    -> ok <dump>
+//	conc <k> <seed> [free]                 the case so far re-run as k independent trees driven at the same time (conc.go)
+//
+// Views are int64 on both sides (any int64 is accepted in ins / prop / pm: MaxInt64, MinInt64 and negative views are
+// generated on purpose; a view outside int64 is a bad-op). The model gives the arithmetic of the translated guards
+// two's-complement semantics (XV.Gen.wrap64).
 //
 // dump = R=<root> H=<high> G=<generic|-> L=<locked|-> C=<commit|-> P=<pacemaker view>
 //
@@ -36,10 +41,12 @@ import (
 	"encoding/hex"
 	"errors"
 	"fmt"
+	"math"
 	"path/filepath"
 	"sort"
 	"strconv"
 	"strings"
+	"sync"
 
 	common "github.com/xuperchain/xupercore/kernel/consensus/base/common"
 	bft "github.com/xuperchain/xupercore/kernel/consensus/base/driver/chained-bft"
@@ -94,6 +101,7 @@ type world struct {
 	accepted map[int]bool // ids whose ins returned ok
 	ops      []string
 	impl     []string
+	th       *thread // set for a tree driven by a thread of a `conc` op (conc.go): its certificates yield in GetProposalId
 }
 
 var (
@@ -497,8 +505,9 @@ func check(x *world, op []string, okAns bool, before, after *snap) []viol {
 		add("pacemaker-decreased", "pacemaker view went from %d to %d", before.pmView, after.pmView)
 	}
 	if op[0] == "pm" && len(op) == 2 {
+		// (a certificate of view MaxInt64 has no successor view an int64 could hold: nothing to require)
 		v, _ := strconv.ParseInt(op[1], 10, 64)
-		if after.pmView < v+1 {
+		if v < math.MaxInt64 && after.pmView < v+1 {
 			add("pacemaker-behind", "pacemaker view %d after a certificate of view %d", after.pmView, v)
 		}
 	}
@@ -601,6 +610,10 @@ func apply(x *world, f []string) (status string) {
 			status = "panic"
 		}
 	}()
+	if x.th != nil {
+		x.th.active = true
+		defer func() { x.th.active = false }()
+	}
 	t := x.tree
 	switch {
 	case f[0] == "ins" && len(f) == 5:
@@ -608,6 +621,7 @@ func apply(x *world, f []string) (status string) {
 		if !ok {
 			return ""
 		}
+		x.wrap(n)
 		// Smr.UpdateQcStatus = ledger-state bookkeeping + qcTree.updateQcStatus
 		if err := x.smr.UpdateQcStatus(n); err != nil {
 			return "err"
@@ -618,6 +632,7 @@ func apply(x *world, f []string) (status string) {
 		if !ok || f[3] == "-" {
 			return ""
 		}
+		x.wrap(n)
 		p, _ := strconv.Atoi(f[3])
 		pv, _ := strconv.ParseInt(f[4], 10, 64)
 		x.pm.AdvanceView(&bft.QuorumCert{VoteInfo: &bft.VoteInfo{ProposalId: idBytes(p), ProposalView: pv}})
@@ -627,6 +642,14 @@ func apply(x *world, f []string) (status string) {
 		if err := t.VerifUpdateQcStatus(n); err != nil {
 			return "err"
 		}
+		return "ok"
+	case f[0] == "pm" && len(f) == 2:
+		// a certificate of ANY int64 view (the view field of a message is not range-checked anywhere)
+		v, err := strconv.ParseInt(f[1], 10, 64)
+		if err != nil {
+			return ""
+		}
+		x.pm.AdvanceView(&bft.QuorumCert{VoteInfo: &bft.VoteInfo{ProposalView: v}})
 		return "ok"
 	case len(f) == 2:
 		id, err := strconv.Atoi(f[1])
@@ -659,9 +682,6 @@ func apply(x *world, f []string) (status string) {
 		case "commit":
 			t.VerifUpdateCommit(idBytes(id))
 			return "ok"
-		case "pm":
-			x.pm.AdvanceView(&bft.QuorumCert{VoteInfo: &bft.VoteInfo{ProposalView: int64(id)}})
-			return "ok"
 		}
 	}
 	return ""
@@ -669,18 +689,35 @@ func apply(x *world, f []string) (status string) {
 
 // step executes one op line on the current case; returns the canonical answer and the violations.
 func step(line string) (ans string, vs []viol) {
+	if f := strings.Fields(line); len(f) >= 1 && f[0] == "conc" {
+		return stepConc(f)
+	}
+	w, ans, vs = stepW(w, nil, line)
+	return ans, vs
+}
+
+// stepW: one op line on the world w (nil before the first reset); th != nil: the world belongs to a thread of a conc op.
+func stepW(w *world, th *thread, line string) (nw *world, ans string, vs []viol) {
+	nw = w
 	defer func() {
 		// the structure could not even be walked / judged: a violation with the case so far as the failing input
 		if r := recover(); r != nil {
 			if w != nil && (len(w.ops) == 0 || w.ops[len(w.ops)-1] != line) {
 				w.ops = append(w.ops, line)
 			}
-			ans, vs = "unwalkable", []viol{{"structure-unwalkable", fmt.Sprintf("walking / judging the structure after `%s` panicked: %v", line, r)}}
+			nw, ans, vs = w, "unwalkable", []viol{{"structure-unwalkable", fmt.Sprintf("walking / judging the structure after `%s` panicked: %v", line, r)}}
 		}
 	}()
+	nw, ans, vs = stepW1(w, th, line)
+	return
+}
+
+func stepW1(w *world, th *thread, line string) (*world, string, []viol) {
+	var ans string
+	var vs []viol
 	f := strings.Fields(line)
 	if len(f) == 0 {
-		return "bad-op", nil
+		return w, "bad-op", nil
 	}
 	if f[0] == "reset" && (len(f) == 1 || len(f) == 3) {
 		start, tip := 1, 0
@@ -689,12 +726,13 @@ func step(line string) (ans string, vs []viol) {
 			start, e1 = strconv.Atoi(f[1])
 			tip, e2 = strconv.Atoi(f[2])
 			if e1 != nil || e2 != nil || start < 0 || tip < 0 {
-				return "bad-op", nil
+				return w, "bad-op", nil
 			}
 		}
 		var st string
 		w, st = newWorld(start, tip)
 		w.ops = []string{line}
+		w.setThread(th)
 		if st != "ok" {
 			w.impl = []string{st}
 			if st == "panic" {
@@ -702,7 +740,7 @@ func step(line string) (ans string, vs []viol) {
 			} else if start >= 1 && start-1 <= tip {
 				vs = append(vs, viol{"init:no-tree", fmt.Sprintf("InitQCTree(start %d, ledger 0..%d) returned no tree although block %d is on the ledger", start, tip, start-1)})
 			}
-			return st, vs
+			return w, st, vs
 		}
 		s := takeSnap(w)
 		w.impl = []string{"ok " + s.dump()}
@@ -710,26 +748,27 @@ func step(line string) (ans string, vs []viol) {
 		if !(start >= 1 && start-1 <= tip) {
 			vs = append(vs, viol{"init:tree-without-genesis-block", fmt.Sprintf("InitQCTree(start %d, ledger 0..%d) built a tree although block %d is not on the ledger", start, tip, start-1)})
 		}
-		return "ok " + s.dump(), append(vs, checkInit(w, s)...)
+		return w, "ok " + s.dump(), append(vs, checkInit(w, s)...)
 	}
 	if w == nil {
 		w, _ = newWorld(1, 0)
+		w.setThread(th)
 	}
 	if w.tree == nil {
 		switch f[0] {
 		case "dump", "ins", "prop", "high", "vote", "enforce", "commit", "pm":
-			return "no-tree", nil
+			return w, "no-tree", nil
 		}
-		return "bad-op", nil
+		return w, "bad-op", nil
 	}
 	if f[0] == "dump" && len(f) == 1 {
 		s := takeSnap(w)
-		return "ok " + s.dump(), nil
+		return w, "ok " + s.dump(), nil
 	}
 	before := takeSnap(w)
 	st := apply(w, f)
 	if st == "" {
-		return "bad-op", nil
+		return w, "bad-op", nil
 	}
 	after := takeSnap(w)
 	if f[0] == "pm" {
@@ -743,7 +782,7 @@ func step(line string) (ans string, vs []viol) {
 		vs = append(vs, viol{"panic", "the operation panicked"})
 	}
 	vs = append(vs, check(w, f, st == "ok", before, after)...)
-	return ans, vs
+	return w, ans, vs
 }
 
 // runCase executes a whole case silently and returns the keys violated (used by the shrinker).
@@ -848,6 +887,9 @@ func randomCase(r *xvlib.Rng) []string {
 		}
 	}
 	ps := randomTree(r, n, []int{30, 60, 85}[r.Intn(3)], tip)
+	if tip == 0 && r.Chance(1, 10) { // views next to the int64 boundaries
+		ps = shiftViews(ps, r.Bool())
+	}
 	all := append(chainProps(tip)[1:], ps...) // what can be (re-)delivered: the ledger's blocks (with a parent) too
 	// arrival order: a permutation, locally perturbed from "parents first" with varying disorder
 	order := make([]int, n)
@@ -902,7 +944,11 @@ func randomCase(r *xvlib.Rng) []string {
 			case 6:
 				ops = append(ops, fmt.Sprintf("enforce %d", pick()))
 			case 7:
-				ops = append(ops, fmt.Sprintf("pm %d", r.Intn(12)))
+				if r.Chance(1, 5) {
+					ops = append(ops, fmt.Sprintf("pm %d", boundary[r.Intn(len(boundary))]))
+				} else {
+					ops = append(ops, fmt.Sprintf("pm %d", r.Intn(12)))
+				}
 			default: // duplicate arrival (of a new proposal or of a block of the ledger)
 				ops = append(ops, all[r.Intn(len(all))].ins())
 			}
@@ -917,7 +963,97 @@ func randomCase(r *xvlib.Rng) []string {
 			ops = append(ops, ps[i].ins())
 		}
 	}
+	// one case in eight is then run again as several independent trees driven at the same time (conc.go)
+	if r.Chance(1, 8) {
+		ops = append(ops, concLine(r))
+	}
 	return ops
+}
+
+func concLine(r *xvlib.Rng) string {
+	l := fmt.Sprintf("conc %d %d", 2+r.Intn(3), r.Intn(1000))
+	if r.Chance(1, 8) {
+		l += " free"
+	}
+	return l
+}
+
+// boundary: the int64 views a message can carry (no code path range-checks the view field of a proposal, a vote or a
+// certificate; the first-justify path of handleReceivedProposal does not even compare it with anything).
+var boundary = []int64{math.MinInt64, math.MinInt64 + 1, -1, 0, 1, math.MaxInt64 - 1, math.MaxInt64}
+
+// shiftViews moves the views of the new proposals of a tree below proposal 0 (view 0) to the top of the int64 range (the
+// highest view becomes MaxInt64) or to its bottom (view v becomes MinInt64 + v): every comparison of the tree code
+// (HighQC, orphan expiry, pacemaker) then runs next to the wrap-around points.
+func shiftViews(ps []prop, top bool) []prop {
+	var maxv int64
+	for _, p := range ps {
+		if p.view > maxv {
+			maxv = p.view
+		}
+	}
+	off := int64(math.MinInt64)
+	if top {
+		off = math.MaxInt64 - maxv
+	}
+	res := append([]prop{}, ps...)
+	for i := range res {
+		res[i].view += off
+		if res[i].parent != 0 {
+			res[i].pview += off
+		}
+	}
+	return res
+}
+
+// boundaryCases: certificates, proposals and votes whose views are the boundaries of int64, through every entry that
+// feeds the pacemaker (pm = AdvanceView, prop = justify of a proposal, vote = quorum on a stored proposal) and the tree.
+func boundaryCases(f func([]string)) {
+	// every sequence of three certificates over the boundary alphabet, after an ordinary one
+	for _, a := range boundary {
+		for _, b := range boundary {
+			for _, c := range boundary {
+				f([]string{"reset", "pm 4", fmt.Sprintf("pm %d", a), fmt.Sprintf("pm %d", b), fmt.Sprintf("pm %d", c), "pm 7"})
+			}
+		}
+	}
+	for _, a := range boundary {
+		for _, b := range boundary {
+			// a proposal whose justify declares a boundary view (with and without the commit step), then ordinary traffic
+			f([]string{"reset", "pm 9", fmt.Sprintf("prop 1 1 0 %d 0", a), "vote 1", fmt.Sprintf("prop 2 2 1 %d 1", b), "vote 2", "pm 3", "ins 3 3 2 2", "vote 3"})
+			// proposals that carry boundary views themselves; a quorum of votes on them moves the pacemaker
+			if a <= b {
+				f([]string{"reset", "pm 2", fmt.Sprintf("ins 1 %d 0 0", a), "vote 1", fmt.Sprintf("ins 2 %d 1 %d", b, a), "vote 2", "high 1", "pm 5",
+					fmt.Sprintf("ins 3 %d 2 %d", b, b), "vote 3", "commit 3", fmt.Sprintf("ins 5 %d 4 %d", a, a), "enforce 1", "vote 2"})
+			}
+		}
+	}
+	// chains and forks whose views end exactly at MaxInt64 / start at MinInt64, parents first and children first
+	for _, top := range []bool{true, false} {
+		for n := 1; n <= 6; n++ {
+			ps := []prop{}
+			for i := 1; i <= n; i++ {
+				par := i - 1
+				if i == n && n > 2 {
+					par = n - 2 // a competing child
+				}
+				ps = append(ps, prop{id: i, parent: par, view: int64(i), pview: int64(par)})
+			}
+			ps = shiftViews(ps, top)
+			for _, rev := range []bool{false, true} {
+				ops := []string{"reset"}
+				for i := range ps {
+					p := ps[i]
+					if rev {
+						p = ps[len(ps)-1-i]
+					}
+					ops = append(ops, p.ins(), fmt.Sprintf("vote %d", p.id))
+				}
+				ops = append(ops, fmt.Sprintf("high %d", n), fmt.Sprintf("commit %d", n), fmt.Sprintf("vote %d", n), "pm 1", ps[0].ins())
+				f(ops)
+			}
+		}
+	}
 }
 
 // exhaustive: every block tree of n proposals (parent vector) x every arrival order, followed by
@@ -1059,7 +1195,8 @@ func main() {
 	out := xvlib.NewOut(args.Out)
 	defer out.Close()
 	reported := map[string]int{}
-	info = out.Count
+	var infoMu sync.Mutex // conc ... free: the threads of the op count from several goroutines
+	info = func(k string) { infoMu.Lock(); out.Count(k); infoMu.Unlock() }
 	runLine := func(line string) {
 		ans, vs := step(line)
 		out.Emit(line, ans)
@@ -1070,7 +1207,11 @@ func main() {
 				continue
 			}
 			reported[v.key]++
-			ops := shrink(w.ops, v.key)
+			caseOps := w.ops
+			if strings.HasPrefix(line, "conc") {
+				caseOps = append(append([]string{}, w.ops...), line)
+			}
+			ops := shrink(caseOps, v.key)
 			saved := w
 			var impl []string
 			for _, l := range ops {
@@ -1079,7 +1220,7 @@ func main() {
 			}
 			w = saved
 			out.Violate(xvlib.Violation{Key: v.key, What: v.what, Ops: ops, Impl: impl[len(impl)-1:],
-				Extra: "unshrunk case: " + strings.Join(saved.ops, " ; ")})
+				Extra: "unshrunk case: " + strings.Join(caseOps, " ; ")})
 		}
 	}
 	runCaseOut := func(ops []string) {
@@ -1153,6 +1294,19 @@ func main() {
 		exhaustive(n, runCaseOut)
 	}
 	exhaustiveInit(initTip, initN, initDeep, runCaseOut)
+	boundaryCases(runCaseOut)
+	// every tree of <= 3 proposals in every arrival order (+ certification, commit, duplicate), the case then repeated
+	// as 2 and 3 independent trees under 4 schedules each; the restart trees likewise (one schedule)
+	for n := 1; n <= 3; n++ {
+		exhaustive(n, func(ops []string) {
+			for sd := 0; sd < 4; sd++ {
+				runCaseOut(append(append([]string{}, ops...), fmt.Sprintf("conc %d %d", 2+sd%2, sd)))
+			}
+		})
+	}
+	exhaustiveInit(4, 2, -1, func(ops []string) {
+		runCaseOut(append(append([]string{}, ops...), fmt.Sprintf("conc %d %d", 2+len(ops)%2, len(ops))))
+	})
 	for i := 0; i < randCases; i++ {
 		ops := randomCase(rng)
 		runCaseOut(ops)
@@ -1165,5 +1319,5 @@ func main() {
 	if initDeep >= 0 {
 		deepNote = fmt.Sprintf(" (%d for tip ≤ %d)", initN+1, initDeep)
 	}
-	out.Stats.Rule = fmt.Sprintf("InitQCTree (the real function over a ledger of blocks 0..tip) for every tip ≤ %d × every start height 0..tip+2, each continued with chain growth through proposal-with-commit steps, rollbacks to every ledger block and every tree of ≤ %d new proposals%s below the last five ledger blocks in every arrival order; one random case in three starts from such a tree (tip ≤ 8); ", initTip, initN, deepNote) + fmt.Sprintf("every block tree of n ≤ %d proposals (all parent vectors) × every arrival order (n! permutations), each followed by certification and commit of the deepest proposal, one duplicate arrival and one more certification; plus %d random cases: block trees of 3..12 proposals (chain bias 30/60/85%%, occasional view gaps), arrival orders from parents-first to children-first to uniformly random, interleaved updateHighQC / vote-quorum / updateCommit / enforceUpdateHighQC / pacemaker / duplicate arrivals / proposal-with-commit ops and a full re-delivery; after EVERY op the full dump is compared with the model and the C15 oracle is evaluated on the real pointer structure; a case is non-trivial if it ends with orphans, a moved root, pruned/expired proposals or ≥ 3 tree nodes; distinct by op list", exN, randCases)
+	out.Stats.Rule = fmt.Sprintf("InitQCTree (the real function over a ledger of blocks 0..tip) for every tip ≤ %d × every start height 0..tip+2, each continued with chain growth through proposal-with-commit steps, rollbacks to every ledger block and every tree of ≤ %d new proposals%s below the last five ledger blocks in every arrival order; one random case in three starts from such a tree (tip ≤ 8); ", initTip, initN, deepNote) + fmt.Sprintf("every block tree of n ≤ %d proposals (all parent vectors) × every arrival order (n! permutations), each followed by certification and commit of the deepest proposal, one duplicate arrival and one more certification; plus %d random cases: block trees of 3..12 proposals (chain bias 30/60/85%%, occasional view gaps), arrival orders from parents-first to children-first to uniformly random, interleaved updateHighQC / vote-quorum / updateCommit / enforceUpdateHighQC / pacemaker / duplicate arrivals / proposal-with-commit ops and a full re-delivery; views at the int64 boundaries (MinInt64, MinInt64+1, -1, 0, 1, MaxInt64-1, MaxInt64): every triple of certificates, justify views of proposals, votes on proposals carrying them, chains / forks ending at MaxInt64 or starting at MinInt64 in both arrival orders, one random case in ten shifted to a boundary; op conc (k = 2..4 independent trees = prefixes of the case, driven at the same time by the real code, interleaved at every id read of a lookup under a seeded scheduler, one in eight as free goroutines, each thread 30 times over): every tree of ≤ 3 proposals × every arrival order × 4 schedules, the restart trees for tip ≤ 4, one random case in eight; every thread's answers = the answers of the case alone, C15 oracle on every thread's tree; after EVERY op the full dump is compared with the model and the C15 oracle is evaluated on the real pointer structure; a case is non-trivial if it ends with orphans, a moved root, pruned/expired proposals or ≥ 3 tree nodes; distinct by op list", exN, randCases)
 }
